@@ -11,6 +11,12 @@ fresh server per explored history, replayed from the start).  A model client fol
   (a) client vs L  -> kind "client_out_of_sync"   (the diff protocol lost something)
   (b) L vs M       -> kind "restart_differs"      (what the client sees is not what save writes)
   (c) L vs L recomputed after Kconfig._invalidate_all() -> kind "stale_server_state" (a request left memoised values behind)
+  (d) after a request whose only effective key is a successful `load` (alone or followed by `save`): L vs the initial
+      message of a FRESH server started on the content the loaded file had when it was loaded -> kind
+      "load_differs_from_fresh" (something an earlier set / reset / load left behind -- a choice's user selection, a user
+      value, the replaced file's baselines -- survived the replacing load; (a)-(c) cannot see this because the server,
+      the client and the file `save` writes all agree on the leftover).  "The same configuration" after a load IS the
+      loaded file.
   together they imply the statement's client-vs-M equality; separating them names the mechanism.
 Rule for both: equal on every key of the right-hand side; a key only the left-hand side holds must be invisible in both.
 Protocol 1 (no visibility channel) is compared on options visible in the reference, `defaults` only in protocol 3.
@@ -32,7 +38,10 @@ LEVEL = "model_checking"
 RULE = (
     "explicit-state BFS per (tree, server default protocol, client protocol, first request) over the tree's request "
     "alphabet (set single / child-before-parent pairs / unknown / invisible / wrong-typed; reset symbol / menu id / all / "
-    "unknown; load null / snapshot / hand-written file; save null / other file) to depth 3 (quick) / 4 (thorough); a fresh "
+    "unknown; load null / snapshot / hand-written file / untouched copy of the start-up file (discarding every edit) / "
+    "hand-written file + save null; save null / other file) to depth 3 (quick) / 4 (thorough); trees include choices with "
+    "a non-default member selectable by set, by the start-up file and by the hand-written file (default-marked and plain "
+    "start-up files), reset by symbol / menu id / all; a fresh "
     "real server per history; states merged on (server configuration incl. user values, client model, files on disk, "
     "last-used file); sub-trees whose depth-1 state equals the initial state or that of an earlier first request are "
     "explored there. `states` is the sum of per-sub-tree distinct states. distinct_nontrivial = distinct (tree, protocols, "
@@ -45,11 +54,16 @@ ASSUMPTIONS = [
     "the reference state of a restarted server is taken from a fresh protocol-3 server (superset of the channels)",
     "requests that make the server raise (C15's subject, e.g. a JSON float for a hex option) are not in the alphabet; "
     "a server death is nevertheless reported as kind server_died",
+    "oracle (d) is applied only to requests without `set` / `reset` whose reply has no error (a failed load changes nothing; "
+    "with set / reset in the same request the configuration is no longer the loaded file's); the loaded content is taken "
+    "from the files the prefix history left on disk, the file a null load uses follows the server's documented rule (a "
+    "named load / save becomes current unless it failed)",
     "menu ids are obtained by running with cwd = tree directory and --kconfig Kconfig, as the repository's tests do",
 ]
 
 SNAP = "$D/snap"
 HAND = "$D/hand"
+ORIG = "$D/orig"  # a copy of the file the server was started on (never written by the explored requests)
 
 
 # --------------------------------------------------------------------------------------------------
@@ -79,6 +93,7 @@ COMMON_TAIL = [
     {"load": None},
     {"load": SNAP},
     {"load": HAND},
+    {"load": ORIG},
     {"save": None},
     {"save": SNAP},
     # several keys in one request: load, then set, then reset, then save
@@ -375,6 +390,64 @@ def trees() -> Dict[str, dict]:
         ]
         + COMMON_TAIL,
     }
+    # choices in the edit / load / reset / save interleavings: a choice whose default is not its first member, inside a
+    # menu (reset by menu id) and behind a dependency, a second choice that is only visible for one member of the
+    # first, and a prompt-less option derived from the selection.  Two starting points on the same tree:
+    #   chdflt  the project file as a server saved it with everything at its default (default-marked entries); the
+    #           hand-written file user-selects a non-default member
+    #   chsel   the project file user-selects a non-default member of both choices; the hand-written file leaves the
+    #           choices alone (loading it must bring them back to their defaults)
+    ch_files = kgen.render(
+        Program(
+            children=[
+                b("LOGGING", "y"),
+                Menu(
+                    title="Log",
+                    children=[
+                        Choice(
+                            name="LVL",
+                            prompt="lvl",
+                            depends=[S("LOGGING")],
+                            defaults=[("L_INFO", None)],
+                            children=[b("L_ERR"), b("L_INFO"), b("L_DBG")],
+                        ),
+                        Choice(prompt="fmt", depends=[S("L_DBG")], children=[b("F_A"), b("F_B")]),
+                    ],
+                ),
+                Cfg("NUM", "int", defaults=[(L("1"), S("L_ERR")), (L("3"), S("L_INFO")), (L("4"), S("L_DBG")), (L("0"), None)]),
+                Cfg("TAG", "string", prompt="tag", defaults=[(L('"app"'), S("F_B")), (L('"tag"'), None)]),
+            ]
+        )
+    )
+    ch_alpha = [
+        _set(L_DBG=True),
+        _set(L_ERR=True),
+        _set(L_INFO=True),
+        _set(L_DBG=False),
+        _set(LOGGING=False),
+        _set(LOGGING=True),
+        _setp(("F_B", True), ("L_DBG", True)),
+        _set(F_A=True),
+        _set(TAG="mine"),
+        _set(NUM=7),
+        {"reset": ["L_DBG"]},
+        {"reset": ["L_INFO", "F_B"]},
+        {"reset": ["@MENU0"]},
+        {"load": HAND, "save": None},
+    ] + COMMON_TAIL
+    T["chdflt"] = {
+        "files": ch_files,
+        "sdk0": "# default:\nCONFIG_LOGGING=y\n# default:\n# CONFIG_L_ERR is not set\n# default:\nCONFIG_L_INFO=y\n# default:\n# CONFIG_L_DBG is not set\n"
+        '# default:\nCONFIG_NUM=3\n# default:\nCONFIG_TAG="tag"\n',
+        "hand": "CONFIG_LOGGING=y\n# CONFIG_L_ERR is not set\n# CONFIG_L_INFO is not set\nCONFIG_L_DBG=y\n# CONFIG_F_A is not set\nCONFIG_F_B=y\n",
+        "alphabet": ch_alpha,
+    }
+    T["chsel"] = {
+        "files": ch_files,
+        "sdk0": "# CONFIG_L_INFO is not set\nCONFIG_L_DBG=y\nCONFIG_F_B=y\n",
+        "hand": 'CONFIG_TAG="hand"\n',
+        "alphabet": ch_alpha,
+    }
     return T
 
 
@@ -535,6 +608,26 @@ def req_class(line: str) -> str:
     return "+".join(parts) or "empty"
 
 
+def last_file(h: tuple, lines: List[str]) -> str:
+    """the file a `load` / `save` null would use after history h (the server's rule: a named load / save becomes the
+    current file unless that request reported a failed load / save)"""
+    last = "$D/sdkconfig"
+    for i, ln in enumerate(h):
+        q = json.loads(ln)
+        new = last
+        if q.get("load") is not None:
+            new = q["load"]
+        if q.get("save") is not None:
+            new = q["save"]
+        if new != last:
+            rep, _ = server.parse_reply(lines[i + 1]) if i + 1 < len(lines) else (None, None)
+            errs = rep.get("error") if rep else None
+            if isinstance(errs, list) and any(isinstance(e, str) and e.startswith(("Failed to load from", "Failed to save to")) for e in errs):
+                continue
+            last = new
+    return last
+
+
 class Explorer:
     def __init__(self, item: dict, r: common.Result):
         self.item = item
@@ -542,12 +635,13 @@ class Explorer:
         self.files = item["files"]
         self.dv, self.cv = item["dv"], item["cv"]
         self.ev = min(self.dv, self.cv)
-        self.aux = {"hand": item["hand"]}
+        self.aux = {"hand": item["hand"], "orig": item["sdk0"]}
         self.menu_ids: Optional[List[str]] = None
         self.types: Dict[str, str] = {}
         self.kinds: Dict[str, str] = {}
         self.tkey = common.h64(sorted(self.files.items()))
         self._mm: Dict[tuple, Dict[tuple, str]] = {}
+        self._fl: Dict[tuple, Tuple[Dict[str, Optional[str]], str]] = {}
 
     # -- requests
     def resolve(self, body: dict) -> str:
@@ -587,14 +681,7 @@ class Explorer:
         st = State()
         st.run = run
         st.client, st.bad = fold(run.lines)
-        last = "$D/sdkconfig"
-        for ln in h:
-            q = json.loads(ln)
-            if q.get("load") is not None:
-                last = q["load"]
-            if q.get("save") is not None:
-                last = q["save"]
-        st.lastfile = last
+        st.lastfile = last_file(h, run.lines)
         return st
 
     def server_key(self, st: State) -> tuple:
@@ -692,6 +779,24 @@ class Explorer:
                     else:
                         for key, msg in compare("saved_file_differs", live, got[1], 3).items():
                             out[key] = msg
+        # (d) "the state a newly started server reports for the same configuration": a request whose only effective key
+        # is a successful `load` (optionally followed by `save`) leaves the configuration of the loaded file, so the live
+        # state must be the initial state of a fresh server started on that file's content (as it was when it was loaded).
+        # Whatever an earlier `set` / `reset` / `load` left behind (user selections of choices, user values, baselines
+        # of the replaced file) must not survive the replacing load.
+        if h:
+            if "load" in lastq and "set" not in lastq and "reset" not in lastq and rep_last is not None and "error" not in rep_last:
+                pfiles, plast = self.prefix_files(h)
+                target = lastq["load"] if lastq["load"] is not None else plast
+                loaded = pfiles.get(os.path.basename(target)) if os.path.dirname(target) == "$D" else None
+                if loaded is not None:
+                    got = self.fresh_state(loaded)
+                    self.r.count("loaded_file_comparisons")
+                    if got[0] != "ok":
+                        out[("restart", "-", "-", "fresh_server_failed_on_loaded_file")] = f"fresh server on the file the request loaded: {got[1:]!r}"[:300]
+                    else:
+                        for key, msg in compare("load_differs_from_fresh", live, got[1], 3).items():
+                            out[key] = msg + f" (fresh server on the loaded file {target})"
         # (c) what the server announces must not depend on memoised values: recompute after discarding every cache
         # (last use of this history's live object; children are replayed from scratch)
         st.run.kconfig._invalidate_all()
@@ -706,8 +811,18 @@ class Explorer:
                     )
         if len(self._mm) > 64:
             self._mm.clear()
+            self._fl.clear()
         self._mm[h] = out
+        self._fl[h] = (st.run.files, st.lastfile)
         return out
+
+    def prefix_files(self, h: tuple) -> Tuple[Dict[str, Optional[str]], str]:
+        """(files on disk, current file) after h[:-1], i.e. what the last request of h found"""
+        got = self._fl.get(h[:-1])
+        if got is None:
+            st = self.build(h[:-1])
+            got = (st.run.files, st.lastfile)
+        return got
 
     def case(self, h: tuple) -> dict:
         it = self.item
@@ -740,9 +855,9 @@ class Explorer:
                         f"{ctx}: reply lacks {miss or 'the request version'}: {st.run.lines[-1][:160]}",
                         self.case(h),
                     )
+        before = self.mismatches(h[:-1]) if h else {}  # first: leaves the prefix's files at hand for oracle (d)
         now = self.mismatches(h, st)
         live_vis = server.full_state(st.run.kconfig, 2)["visible"]
-        before = self.mismatches(h[:-1]) if h else {}
         for key, text in now.items():
             if key in before:
                 continue
@@ -894,7 +1009,7 @@ def conformance_traces(tier: str, n: int) -> List[dict]:
 
 def conformance_one(case: dict, sub: Optional[dict] = None) -> List[dict]:
     h = list(case["history"])
-    aux = {"hand": case["hand"]}
+    aux = {"hand": case["hand"], "orig": case["sdk0"]}
     viols: List[dict] = []
     inproc = server.run(case["files"], h, sdkconfig=case["sdk0"], default_version=case["dv"], aux=aux)
     if sub is None:
@@ -932,7 +1047,7 @@ def conformance(tier: str, seed: int):
         common.silence_stderr()
     try:
         cases = conformance_traces(tier, n)
-        subs = run_subprocesses([((c["files"], list(c["history"])), {"sdkconfig": c["sdk0"], "default_version": c["dv"], "aux": {"hand": c["hand"]}}) for c in cases])
+        subs = run_subprocesses([((c["files"], list(c["history"])), {"sdkconfig": c["sdk0"], "default_version": c["dv"], "aux": {"hand": c["hand"], "orig": c["sdk0"]}}) for c in cases])
         for case, sub in zip(cases, subs):
             viols.extend(conformance_one(case, sub))
     finally:
